@@ -52,6 +52,13 @@ fn main() {
         "C05" => sweep_cmd(Prop::C05, &["nest", "nestlook", "core", "capback", "onechar"]),
         "C09" => sweep_cmd(Prop::C09, &["core", "capback", "vset", "look", "utf8", "lit", "onechar"]),
         "C13" => sweep_cmd(Prop::C13, &["core", "look", "nest", "icase", "lit", "onechar", "mods", "utf8"]),
+        "c06-worker" => mc::c06::worker(&args[2]),
+        "C06" => {
+            let mut run = Run::new("C06", "exploration");
+            let workers: Vec<String> = std::env::var("C06_WORKERS").unwrap_or_default().split(',').filter(|s| !s.is_empty()).map(|s| s.to_string()).collect();
+            let stats = mc::c06::c06(&mut run, &workers);
+            run.finish(&stats)
+        }
         "C07" => {
             let mut run = Run::new("C07", "exploration");
             let stats = mc::c07::c07(&mut run);
@@ -62,6 +69,27 @@ fn main() {
         "C10" => simple_cmd("C10", mc::c10::c10),
         "C11" => simple_cmd("C11", mc::c11::c11),
         "C12" => simple_cmd("C12", mc::c12::c12),
+        #[cfg(feature = "utf16")]
+        "C14" => simple_cmd("C14", mc::c14::c14),
+        "c15-worker" => mc::c15::worker(&args[2]),
+        "c15-dump" => {
+            let key = u64::from_str_radix(&args[2], 16).unwrap();
+            mc::c06::FOCUS.store(key, std::sync::atomic::Ordering::Relaxed);
+            let run = Run::new("C15", "model_checking");
+            let _ = mc::c15::explore_all(&run);
+            let mut lines = mc::c06::FOCUS_LINES.lock().unwrap().clone();
+            lines.sort();
+            for l in lines {
+                println!("{}", l);
+            }
+            0
+        }
+        "C15" => {
+            let mut run = Run::new("C15", "model_checking");
+            let workers: Vec<String> = std::env::var("C15_WORKERS").unwrap_or_default().split(',').filter(|s| !s.is_empty()).map(|s| s.to_string()).collect();
+            let stats = mc::c15::c15(&mut run, &workers);
+            run.finish(&stats)
+        }
         "C16" => simple_cmd("C16", mc::apichecks::c16),
         "C17" => simple_cmd("C17", mc::apichecks::c17),
         "C18" => simple_cmd("C18", mc::apichecks::c18),
